@@ -13,7 +13,7 @@ from driver import run_batch
 from wire import to_wire, exc_class
 from props.common import scale, depth_of, schema_tags, same
 
-THEOREMS = ["c11_names", "c11_reference_resolves", "c11_reject_undefined", "c11_reject_redefined", "c11_definition_registers",
+THEOREMS = ["c11_names", "c11_table_holds_definitions", "c11_reference_resolves", "c11_reject_undefined", "c11_reject_redefined", "c11_definition_registers",
             "c11_names_only_grow", "c11_reject_unnamed", "c11_reject_symbols", "c11_reject_enum_default",
             "c11_reject_default_prim", "c11_reject_default_union", "c11_reject_default_array", "c11_reject_default_map",
             "c11_reject_default_named", "c11_reject_decimal", "c11_error_propagates_union", "c11_error_propagates_array",
